@@ -152,6 +152,9 @@ func (zns *ZnPMServer) StartMaster(connUrl string, cfg ZnPMServerConfig) error {
 	//// read named pipe data to recv msg from child process
 	go zns.readNamedPipe(p)
 
+	// reserve the initial processes spawned below
+	zns.refCount = cfg.InitProcs
+
 	//// maintain child state (DO NOT UPDATE child data directly!)
 	go zns.maintainChildState(cfg, ln, p)
 
@@ -256,8 +259,9 @@ func (zns *ZnPMServer) maintainChildState(cfg ZnPMServerConfig, ln *net.TCPListe
 	for {
 		select {
 		case aw := <-zns.addChan:
+			// refCount (live + reserved processes) already counts this process: it was
+			// reserved when its spawn was decided, so registering it must not reset the counter
 			zns.childs[aw.pid] = aw
-			zns.refCount = len(zns.childs)
 		case uw := <-zns.updateChan:
 			if oldState, ok := zns.childs[uw.pid]; ok {
 				zns.childs[uw.pid] = workerState{
